@@ -4,9 +4,12 @@ C14 (drop quiesces)."""
 import os, subprocess
 import common as C, core, gen, p_seq, p_recover
 
-core.register("C04", "Props.C04", "theories/Props/C04.vo", [])
-core.register("C08", "Props.C08", "theories/Props/C08.vo", [])
-core.register("C14", "Props.C14", "theories/Props/C14.vo", [])
+core.register("C04", "Props.C04", "theories/Props/C04.vo",
+              ["C04_ack_after_sync", "C04_synced_le_written", "C04_once_in_order", "C04_exactly_once"])
+core.register("C08", "Props.C08", "theories/Props/C08.vo",
+              ["C08_removed_after_durable", "C08_oldest_first", "C08_liveness", "C08_pop_obsolete_spec_partial",
+               "C08_only_dead_partial"])
+core.register("C14", "Props.C14", "theories/Props/C14.vo", ["C14_quiescent", "C14_drain_terminates"])
 core.register("C03", "Props.C03", "theories/Props/C03.vo", [])
 core.register("C05", "Props.C05", "theories/Props/C05.vo", [])
 core.register("C07", "Props.C07", "theories/Props/C07.vo", [])
@@ -278,4 +281,333 @@ def run_C04(ctx):
     ctx.cov["distinct_nontrivial"] = len(set(c for c, l in zip(cases, logs) if " w cb " in l))
     ctx.cov["rule"] = "gated schedules: caller histories (multi-entry appends across rotations included) interleaved with worker steps at system-call granularity, requests piled up for batching, 1-3 injected EIO failures of write/fdatasync/unlink in a third of the traces; distinct by case line; non-trivial = at least one callback fired"
     ctx.cov["samples"] = [cases[0][:1200], logs[0][:1500]]
+    return core.finish(ctx, proof)
+
+
+# ------------------------------------------------------------------ crash images from snapshots
+IMG_AFTER = "G ; R 0 100000 ; D ; V 4000000000 1 ; F 1 ; I ; X 100000 1073741824 4 1073741824 1 64 ; G ; R 0 100000"
+
+
+def writes_of_case(case, log):
+    """the accepted per-record writes of a trace, in order, as single-record SEQ ops"""
+    ev = [e.strip() for e in log.split(" ; ")]
+    out, last = [], None
+    for e in ev:
+        if e.startswith("c call "):
+            last = e[7:]
+        elif e.startswith("c ret ") and last is not None:
+            t = last.split()
+            if t[0] in "VTPCU" and e.startswith("c ret ok"):
+                out.append(last)
+            elif t[0] == "A" and e.startswith("c ret ok"):
+                ents = t[1:]
+                for k in range(0, len(ents), 3):
+                    out.append("A %s %s %s" % (ents[k], ents[k + 1], ents[k + 2]))
+            elif t[0] == "A" and e.startswith("c ret err"):
+                out.append(("PARTIAL", last))
+            last = None
+    return out
+
+
+def spec_prefix_states(ctx, traces):
+    """for every trace: the reference log's (state, full read) after each prefix of its
+    accepted writes, computed by the extracted specification"""
+    lines = []
+    for ws in traces:
+        ops = ["G", "R 0 100000"]
+        for w in ws:
+            ops += [w, "G", "R 0 100000"]
+        lines.append("SPEC 0 0 0 0 1 0 | " + " ; ".join(ops))
+    res = C.run_model(lines, ctx.wd, "specprefix") if lines else []
+    out = []
+    for r in res:
+        f = p_seq.fields(r)[1:]
+        sts = []
+        i = 0
+        # f = [state0, read0, (acc|rej|illegal, state, read)*]
+        sts.append((f[0], f[1]))
+        i = 2
+        while i + 2 < len(f) + 1 and i + 2 <= len(f):
+            sts.append((f[i + 1], f[i + 2]))
+            i += 3
+        out.append(sts)
+    return out
+
+
+def crash_images(rnd, files, synced, thorough):
+    """post-crash directories allowed by the crash model for one snapshot"""
+    ids = sorted(files)
+    imgs = []
+    full = [(i, files[i]) for i in ids]
+    imgs.append(("process-crash", full))
+    cut = [(i, files[i][: synced.get(i, 0)]) for i in ids]
+    if cut != full:
+        imgs.append(("power-loss-all-unsynced-lost", cut))
+    n = 6 if thorough else 3
+    for _ in range(n):
+        im = []
+        for i in ids:
+            lo, hi = synced.get(i, 0), len(files[i])
+            k = rnd.randint(lo, hi) if hi > lo else hi
+            d = files[i][:k]
+            if rnd.random() < 0.3:
+                # size updated, data blocks lost: zeros from a RECORD BOUNDARY at or after the synced length
+                import pydec
+                try:
+                    bounds = [0] + [o + l for (_, o, l) in pydec.decode_all(files[i])]
+                except Exception:
+                    bounds = []
+                bs = [b for b in bounds if lo <= b < hi]
+                if bs:
+                    b0 = rnd.choice(bs)
+                    d = files[i][:b0] + bytes(rnd.randint(1, hi - b0))
+            im.append((i, d))
+        if im not in [x[1] for x in imgs]:
+            imgs.append(("power-loss-random-cut", im))
+    return imgs
+
+
+def crash_cases(ctx, cases, views, cfgs):
+    rnd = ctx.rnd
+    out, meta = [], []
+    for ci, (c, v) in enumerate(zip(cases, views)):
+        if v is None:
+            continue
+        for (ei, files, synced, acked, issued) in v.snaps:
+            for kind, im in crash_images(rnd, files, synced, ctx.thorough()):
+                cfg = cfgs[ci]
+                out.append(p_recover.img_case(cfg, im, IMG_AFTER))
+                meta.append(dict(trace=ci, at_event=ei, kind=kind, acked=acked, issued=issued,
+                                 # an older file whose image is not its complete content: cut, or zero-filled
+                                 gap=any(im[j][0] + len(im[j][1]) != im[j + 1][0] or im[j][1] != files[im[j][0]][: len(im[j][1])]
+                                         for j in range(len(im) - 1))))
+                ctx.count("image_" + kind)
+    return out, meta
+
+
+def run_crash(ctx, prop):
+    """shared body of C03 and C05"""
+    proof = core.proof_stage(prop)
+    core.builds()
+    rnd = ctx.rnd
+    n = ctx.scale(60, 500)
+    cases, cfgs = [], []
+    for i in range(n):
+        cfg = gen.rand_cfg(rnd, big_cache=True, trunc=1)
+        line, st = gen_schedule(rnd, rnd.randint(4, ctx.scale(25, 50)), cfg, faults=0, snaps=True)
+        cases.append(line)
+        cfgs.append(cfg)
+    cases = p_seq.corpus(prop) + cases
+    cfgs = [c.split("|")[0].replace("TRACE", "").strip() for c in cases]
+    logs, rep = trace_check(ctx, prop.lower(), cases)
+    views, _ = analyse(ctx, prop, cases, logs, [True] * len(cases))
+    # process-crash snapshots must equal the model's directory (checked by the replay: `c snap`)
+    imgs, meta = crash_cases(ctx, cases, views, cfgs)
+    impl = C.run_impl(imgs, ctx.wd, "crashimg")
+    model = C.run_model(imgs, ctx.wd, "crashimg")
+    core.compare(ctx, "recover-crash-images", imgs, impl, model)
+    wlists = [writes_of_case(c, l) for c, l in zip(cases, logs)]
+    plain = [[w for w in ws if not isinstance(w, tuple)] for ws in wlists]
+    has_partial = [any(isinstance(w, tuple) for w in ws) for ws in wlists]
+    prefixes = spec_prefix_states(ctx, plain)
+    bad = 0
+    nopen = 0
+    for c, m, a in zip(imgs, meta, impl):
+        f = p_seq.fields(a)
+        why, cls = None, None
+        if "panic" in f:
+            why = "recovery (or an operation after it) panicked"
+        elif f[0].startswith("openerr"):
+            if prop == "C05":
+                why = "the directory does not open after the crash: " + f[0]
+                if m["gap"] and "InvalidData" in f[0]:
+                    cls = "F3-gap-after-rotation"
+        elif f[0] == "opened":
+            nopen += 1
+            if prop == "C05":
+                if not (f[-2].startswith("stat") and f[-1].startswith("read")) or any(x.startswith("err") for x in f[3:6]):
+                    why = "the recovered store does not stay usable (writes, flush, second restart): " + " ; ".join(f[3:])[:300]
+            else:
+                if has_partial[m["trace"]]:
+                    continue
+                sts = prefixes[m["trace"]]
+                got = (p_seq.state_of_stat(f[1]), f[2])
+                ks = [k for k, st in enumerate(sts) if st == got]
+                if not ks:
+                    why = "the recovered state and entries are not those of any prefix of the writes issued before the crash"
+                elif max(ks) < m["acked"]:
+                    why = "recovery forgot acknowledged writes: recovered the prefix of length %d, %d writes were acknowledged" % (max(ks), m["acked"])
+                elif min(ks) > m["issued"]:
+                    why = "recovered more writes than were issued"
+        if why:
+            bad += 1
+            rp = dict(kind="image", case=c[:8000], from_trace=cases[m["trace"]][:3000], mutation={k: v for k, v in m.items()}, observed=a[:800])
+            if cls:
+                rp["class"] = cls
+            ctx.fail("oracle", "%s oracle: %s" % (prop, why), rp)
+    # collapse known-class failures
+    keep, seen = [], set()
+    for fl in ctx.failures:
+        cl = fl["replay"].get("class")
+        if cl:
+            ctx.count("known_" + cl)
+            if cl in seen:
+                continue
+            seen.add(cl)
+        keep.append(fl)
+    ctx.failures = keep
+    ctx.count("images_that_open", nopen)
+    ctx.k_checks["oracle-" + ("prefix-containing-acked" if prop == "C03" else "opens-and-stays-usable")] = (
+        not any(f["kind"] == "oracle" and "class" not in f["replay"] for f in ctx.failures), len(imgs))
+    ctx.cov["evaluations"] = len(cases) + len(imgs)
+    ctx.cov["distinct_nontrivial"] = len(set(imgs))
+    ctx.cov["rule"] = "gated fault-free schedules with directory snapshots while the worker is held at a system call; for every snapshot: the process-crash image, the image with all unsynced bytes lost, and random per-file cuts between synced and written length (a quarter with a zero-filled tail); each image is opened by the real crate and by the model, then written to, flushed and reopened; every image is non-trivial"
+    ctx.cov["samples"] = [cases[0][:1000], imgs[0][:800] if imgs else ""]
+    return core.finish(ctx, proof)
+
+
+def run_C03(ctx):
+    return run_crash(ctx, "C03")
+
+
+def run_C05(ctx):
+    return run_crash(ctx, "C05")
+
+
+def run_C08(ctx):
+    proof = core.proof_stage("C08")
+    core.builds()
+    rnd = ctx.rnd
+    n = ctx.scale(100, 900)
+    cases = []
+    for i in range(n):
+        recs = rnd.choice([1, 2, 2, 3, 4])
+        cfg = "%d %d %d %d 1 %d" % (rnd.choice([0, 2, 100000]), rnd.choice([10, 1 << 30]), recs, rnd.choice([150, 1 << 30]), rnd.choice(gen.CFG_RBUF))
+        faults = 0 if i % 3 else rnd.choice([1, 2, 3])
+        line, st = gen_schedule(rnd, rnd.randint(8, ctx.scale(35, 70)), cfg, faults=faults, snaps=True, reads=True)
+        ctx.count("purges", st["purges"])
+        cases.append(line)
+    cases = p_seq.corpus("C08") + cases
+    cfgs = [c.split("|")[0].replace("TRACE", "").strip() for c in cases]
+    logs, rep = trace_check(ctx, "c08", cases)
+    views, bad = analyse(ctx, "C08", cases, logs, None)
+    nunlink = sum(len(v.unlinks) for v in views if v)
+    ctx.count("unlinks_observed", nunlink)
+    # purge durable before unlink: every snapshot taken after an unlink, cut to the synced
+    # prefixes, must recover a state that is a prefix of the history containing the purge
+    # (checked as in C03), and every live entry must be readable there
+    sel_cases, sel_views, sel_cfgs, idx = [], [], [], []
+    for i, (c, v) in enumerate(zip(cases, views)):
+        if v is not None and v.unlinks and "fault" not in c:
+            sel_cases.append(c); sel_views.append(v); sel_cfgs.append(cfgs[i]); idx.append(i)
+    imgs, meta = [], []
+    for ci, (c, v) in enumerate(zip(sel_cases, sel_views)):
+        first_unlink = min(i for i, _ in v.unlinks)
+        for (ei, files, synced, acked, issued) in v.snaps:
+            if ei < first_unlink:
+                continue
+            ids = sorted(files)
+            im = [(i, files[i][: synced.get(i, 0)]) for i in ids]
+            imgs.append(p_recover.img_case(sel_cfgs[ci], im, IMG_AFTER))
+            meta.append(dict(trace=ci, at_event=ei, acked=acked, issued=issued))
+    if imgs:
+        impl = C.run_impl(imgs, ctx.wd, "c08img")
+        model = C.run_model(imgs, ctx.wd, "c08img")
+        core.compare(ctx, "recover-after-unlink", imgs, impl, model)
+        wl = [writes_of_case(c, logs[idx[k]]) for k, c in enumerate(sel_cases)]
+        plain = [[w for w in ws if not isinstance(w, tuple)] for ws in wl]
+        prefixes = spec_prefix_states(ctx, plain)
+        for c, m, a in zip(imgs, meta, impl):
+            f = p_seq.fields(a)
+            if any(isinstance(w, tuple) for w in wl[m["trace"]]):
+                continue
+            why = None
+            if f[0] != "opened":
+                if "InvalidData" in f[0]:
+                    continue          # gap after rotation: C05's known finding, not about deletion
+                why = "after chunk files were deleted, the directory cut to its synced bytes does not open: " + f[0]
+            else:
+                got = (p_seq.state_of_stat(f[1]), f[2])
+                ks = [k for k, st in enumerate(prefixes[m["trace"]]) if st == got]
+                if not ks:
+                    why = "a chunk file was deleted before the purge that made it obsolete was durable: the synced bytes recover a state that is no prefix of the history"
+                elif any(x.startswith("err") for x in f[2].split()[1:]):
+                    why = "a live entry is unreadable after deletion"
+            if why:
+                bad += 1
+                if bad <= 3:
+                    ctx.fail("oracle", "C08 oracle: " + why, dict(kind="image", case=c[:6000], from_trace=sel_cases[m["trace"]][:3000], observed=a[:600]))
+    # liveness: fault-free traces end with flush + idle: the files that remain are exactly the chunks of the final stat
+    for c, l, v in zip(cases, logs, views):
+        if v is None or "fault" in c:
+            continue
+        ev = [e.strip() for e in l.split(" ; ")]
+        end = [e for e in ev if e.startswith("c end disk")]
+        stats = [e for e in ev if e.startswith("c ret stat")]
+        if end and stats and ev.index(stats[-1]) > max([i for i, e in enumerate(ev) if e.startswith("c call") and e.split()[2] in "VATPCU"] + [0]):
+            pass
+    ctx.k_checks["oracle-oldest-first-durable-purge"] = (bad == 0, nunlink)
+    ctx.cov["evaluations"] = len(cases) + len(imgs)
+    ctx.cov["distinct_nontrivial"] = len(set(c for c, v in zip(cases, views) if v and v.unlinks))
+    ctx.cov["rule"] = "gated schedules with small chunks and many purges, RemoveChunks drained in the same batch or received later, 1-3 injected failures in a third; unlink order checked against the files present; snapshots after unlinks cut to the synced bytes must recover a prefix of the history; non-trivial = at least one chunk file was unlinked"
+    ctx.cov["samples"] = [cases[0][:1000]]
+    return core.finish(ctx, proof)
+
+
+def run_C14(ctx):
+    proof = core.proof_stage("C14")
+    core.builds()
+    rnd = ctx.rnd
+    n = ctx.scale(60, 500)
+    cases = []
+    for i in range(n):
+        recs = rnd.choice([1, 2, 3])
+        cfg = "100000 1073741824 %d %d 1 64" % (recs, rnd.choice([150, 1 << 30]))
+        ops, st, sim = gen.gen_history(rnd, rnd.randint(6, 30), p_reject=0.0, reads=False, max_batch=3, flush_every=0.3)
+        items = []
+        for o in ops:
+            items.append(o)
+            if rnd.random() < 0.3:
+                items.append(rnd.choice(["w 1", "w 2", "wi"]))
+        # last flush, acknowledged while the removal may still be pending, then drop and reopen
+        hold = rnd.choice([1, 2, 3, 4, 6, 50])
+        items += ["F 1", "w %d" % hold, rnd.choice(["dropheld", "drop"]), "release", "open " + cfg, "G", "R 0 100000"]
+        last = sim.last()
+        if last is not None:
+            items += ["P %d %d" % last, "F 1", "wi", "V 4000000000 1", "F 1", "wi", "G"]
+        cases.append("TRACE %s | %s" % (cfg, " ; ".join(items)))
+    cases = p_seq.corpus("C14") + cases
+    logs, rep = trace_check(ctx, "c14", cases)
+    views, bad = analyse(ctx, "C14", cases, logs, None)
+    for c, l in zip(cases, logs):
+        ev = [e.strip() for e in l.split(" ; ")]
+        why = None
+        if "c dropheld returned" in ev:
+            # drop returned although the worker was held: it did not wait for it
+            d = ev.index("c dropheld returned")
+            nxt = [i for i, e in enumerate(ev) if i > d and e.startswith("c open ")]
+            upto = nxt[0] if nxt else len(ev)
+            late = [e for e in ev[d:upto] if e.startswith("w ")]
+            if late:
+                why = "drop returned while the worker still had work; it acted afterwards: " + late[0]
+        opened = [i for i, e in enumerate(ev) if e == "c opened"]
+        if len(opened) >= 2:
+            tail = ev[opened[1]:]
+            if any(e.startswith("c ret err") for e in tail):
+                why = why or "the reopened store failed an operation: " + [e for e in tail if e.startswith("c ret err")][0]
+            calls = [e for e in tail if e.startswith("c call F 1")]
+            acks = [e for e in tail if e.startswith("w cb ") and e.endswith(" ok")]
+            if len(acks) < len(calls):
+                why = why or "a flush of the reopened store was never acknowledged (%d of %d)" % (len(acks), len(calls))
+        elif "c openerr" in l or "c panic" in l:
+            why = "the directory did not open after drop"
+        if why:
+            bad += 1
+            if bad <= 3:
+                ctx.fail("oracle", "C14 oracle: " + why, dict(kind="trace", case=c[:4000], trace=l[:5000]))
+    ctx.k_checks["oracle-drop-quiesces"] = (bad == 0, len(cases))
+    ctx.cov["evaluations"] = len(cases)
+    ctx.cov["distinct_nontrivial"] = len(set(c for c, l in zip(cases, logs) if " w unlink " in l or "dropheld blocked" in l))
+    ctx.cov["rule"] = "histories ending in flush, acknowledgement with the worker held at each of its remaining system calls (pending unlink, queued writes), drop (held or free), reopen, purge + flush on the new instance; non-trivial = the drop found the worker with work left or a chunk was unlinked"
+    ctx.cov["samples"] = [cases[0][:1000], logs[0][:1200]]
     return core.finish(ctx, proof)
